@@ -241,9 +241,95 @@ def _frame_filter(ctx, rr, g, rd, loop_ids):
                             if b.kind == 'branch' and ((isop and b.attrs['polarity'] is True) or (isnot and b.attrs['polarity'] is False)):
                                 branches.append(b)
                 detail = 'compile filename and the frame filter both read %s; `%s` is set only for a frame of the part file' % (field, var)
+    # the same search extracted into a helper (inlining bound 1): v [, ...] = helper(..., self.<field>, ...)
+    for n in g.nodes:
+        if id(n) not in loop_ids or n.kind != 'stmt' or not isinstance(n.ast, ast.Assign) or not isinstance(n.ast.value, ast.Call):
+            continue
+        r = ctx.res.resolve_call(f, n.ast.value)
+        if r[0] != 'repo' or len(r[1]) != 1:
+            continue
+        h = r[1][0]
+        pos = _helper_frame_search(ctx, h, n.ast.value, field)
+        if pos is None:
+            continue
+        tg = n.ast.targets[0]
+        var = None
+        if pos == 'value' and isinstance(tg, ast.Name):
+            var = tg.id
+        elif isinstance(pos, int) and isinstance(tg, ast.Tuple) and pos < len(tg.elts) and isinstance(tg.elts[pos], ast.Name):
+            var = tg.elts[pos].id
+        if var is None:
+            continue
+        others = [d for d in rd.defs_of(var) if d.node is not n]
+        if all(isinstance(d.value, ast.Constant) and d.value.value is None for d in others):
+            for t in g.nodes:
+                if t.kind == 'test' and isinstance(t.ast, ast.Compare) and len(t.ast.ops) == 1 and is_name(t.ast.left, var) \
+                        and isinstance(t.ast.comparators[0], ast.Constant) and t.ast.comparators[0].value is None:
+                    isop = isinstance(t.ast.ops[0], ast.Is)
+                    isnot = isinstance(t.ast.ops[0], ast.IsNot)
+                    for b in t.nsucc():
+                        if b.kind == 'branch' and ((isop and b.attrs['polarity'] is True) or (isnot and b.attrs['polarity'] is False)):
+                            branches.append(b)
+            detail = 'compile filename and the frame filter (in %s) both read %s; `%s` is set only for a frame of the part file' % (h.name, field, var)
     if not branches:
+        # a "nothing found" test that guards an explicit raise in a handler, but whose variable we could not tie to the frame search
+        for t in g.nodes:
+            if id(t) in loop_ids and t.kind == 'test' and isinstance(t.ast, ast.Compare) and len(t.ast.ops) == 1 and isinstance(t.ast.ops[0], (ast.Is, ast.IsNot)) and \
+                    isinstance(t.ast.comparators[0], ast.Constant) and t.ast.comparators[0].value is None and any(fr.kind == 'try' and fr.phase == 'handler' for fr in t.frames):
+                reach = graph.reachable(t.nsucc(), efilter=graph.normal_only, stop=[x for x in g.nodes if x.kind == 'for' and id(x) in loop_ids])
+                if any(x.kind == 'stmt' and isinstance(x.ast, ast.Raise) and x.ast.exc is not None for x in reach):
+                    raise AnalysisError('C09.R1: the handler raises when `%s`, but the search that sets the variable was not recognised (frame search idiom changed)' % ctx.src(t.ast))
         return [], True, 'compile filename is %s; no "frame not found" branch exists in the handlers' % field
     return branches, True, detail
+
+
+def _helper_frame_search(ctx, h, call, field):
+    """if helper h searches a traceback for the first entry whose co_filename equals one of its parameters, and the call passes
+    self.<field> for that parameter: the position of the found line in the returned value ('value' or a tuple index), else None"""
+    g = ctx.cfg(h)
+    rd = ctx.rd(h)
+    dom = ctx.dom(g, g.entry)
+    params = [a.arg for a in h.node.args.args]
+    for n in g.nodes:
+        if n.kind != 'stmt' or n.dup or not isinstance(n.ast, ast.Assign) or not isinstance(n.ast.targets[0], ast.Name):
+            continue
+        pname = None
+        for b in dom.guards(n):
+            if b.kind != 'branch' or b.attrs['test'].kind != 'test' or b.attrs['polarity'] is not True:
+                continue
+            e = b.attrs['test'].ast
+            if isinstance(e, ast.Compare) and len(e.ops) == 1 and isinstance(e.ops[0], ast.Eq):
+                sides = [e.left, e.comparators[0]]
+                for s_, o in ((sides[0], sides[1]), (sides[1], sides[0])):
+                    if isinstance(s_, ast.Name) and s_.id in params and all(d.kind == 'param' for d in rd.at(b.attrs['test'], s_.id)) and _is_co_filename(o, rd, b.attrs['test']):
+                        pname = s_.id
+        if pname is None:
+            continue
+        var = n.ast.targets[0].id
+        others = [d for d in rd.defs_of(var) if d.node is not n]
+        if not all(isinstance(d.value, ast.Constant) and d.value.value is None for d in others):
+            continue
+        # the argument bound to pname
+        i = params.index(pname)
+        if h.cls is not None:
+            i -= 1
+        arg = call.args[i] if 0 <= i < len(call.args) else next((k.value for k in call.keywords if k.arg == pname), None)
+        if arg is None or field_name(arg, 'self') != field:
+            continue
+        rets = [x for x in g.nodes if x.kind == 'stmt' and isinstance(x.ast, ast.Return) and not x.dup]
+        poss = set()
+        for rn in rets:
+            v = rn.ast.value
+            if is_name(v, var):
+                poss.add('value')
+            elif isinstance(v, ast.Tuple):
+                idx = [k for k, e_ in enumerate(v.elts) if is_name(e_, var)]
+                poss.add(idx[0] if len(idx) == 1 else None)
+            else:
+                poss.add(None)
+        if len(poss) == 1 and None not in poss:
+            return poss.pop()
+    return None
 
 
 def _is_co_filename(e, rd, node):
